@@ -287,3 +287,120 @@ Proof.
   { split; [discriminate | intros (k & ? & ?); lia]. }
   split; [intros _|reflexivity]. exists (Z.max (roff r) (roff c)). lia.
 Qed.
+
+(** ** The merged result does not depend on the order the unstable sort chooses
+
+    Closed intervals in doubled coordinates: [r] covers [2*off, 2*(off+len)].
+    Two ranges are merged by MergeRanges iff these closed intervals meet, and a
+    separated list is determined by the union of its closed intervals. *)
+
+Definition inr2 (r : range) (k : Z) : Prop := 2 * roff r <= k <= 2 * (roff r + rlen r).
+Definition den2 (l : list range) (k : Z) : Prop := Exists (fun r => inr2 r k) l.
+
+Lemma den2_nil k : den2 [] k <-> False.
+Proof. unfold den2. split; [intros H; inversion H | tauto]. Qed.
+Lemma den2_cons a l k : den2 (a :: l) k <-> inr2 a k \/ den2 l k.
+Proof. unfold den2. apply Exists_cons. Qed.
+Lemma den2_perm l l' k : Permutation l l' -> den2 l k <-> den2 l' k.
+Proof.
+  intros P. unfold den2. rewrite !Exists_exists. split; intros (x & I & J); exists x; split; try assumption.
+  - eapply Permutation_in; eauto.
+  - eapply Permutation_in; [apply Permutation_sym|]; eauto.
+Qed.
+
+Lemma merge_go_den2 l : forall e, okr e -> Forall okr l -> sorted_lb (roff e) l ->
+  forall k, den2 (merge_go e l) k <-> inr2 e k \/ den2 l k.
+Proof.
+  induction l as [|n t IH]; intros e Oe F S k; cbn [merge_go].
+  - rewrite den2_cons, !den2_nil. tauto.
+  - inversion F as [|? ? On Ft]; subst. cbn [sorted_lb] in S. destruct S as (S1 & S2).
+    rewrite (rend_ok e Oe), (rend_ok n On).
+    pose proof Oe as (e0 & e1 & e2). pose proof On as (n0 & n1 & n2).
+    destruct (roff n <=? roff e + rlen e) eqn:E.
+    + apply Z.leb_le in E.
+      set (e' := mkR (roff e) (wrap64 (Z.max (roff n + rlen n) (roff e + rlen e) - roff e))).
+      assert (L : rlen e' = Z.max (roff n + rlen n) (roff e + rlen e) - roff e).
+      { unfold e'. cbn [rlen]. apply wrap64_small. lia. }
+      assert (Oe' : okr e'). { unfold okr. rewrite L. unfold e'. cbn [roff]. lia. }
+      rewrite (IH e' Oe' Ft).
+      2:{ unfold e'. cbn [roff]. eapply sorted_lb_weaken; [|exact S2]. lia. }
+      assert (X : inr2 e' k <-> inr2 e k \/ inr2 n k).
+      { unfold inr2. rewrite L. unfold e'. cbn [roff]. lia. }
+      rewrite den2_cons. tauto.
+    + apply Z.leb_gt in E. rewrite den2_cons, (IH n On Ft S2), den2_cons. tauto.
+Qed.
+
+Lemma sep_lb_den2 lb l k : Forall okr l -> sep_lb lb l -> den2 l k -> 2 * lb + 2 <= k.
+Proof.
+  revert lb. induction l as [|a t IH]; intros lb F S I.
+  - apply den2_nil in I. tauto.
+  - inversion F as [|? ? Oa Ft]; subst. cbn [sep_lb] in S. destruct S as (S1 & S2).
+    apply den2_cons in I. destruct I as [I | I].
+    + unfold inr2 in I. lia.
+    + specialize (IH _ Ft S2 I). destruct Oa as (? & ? & ?). lia.
+Qed.
+
+Lemma separated_unique l1 : forall l2 lb, sep_lb lb l1 -> sep_lb lb l2 -> Forall okr l1 -> Forall okr l2 ->
+  (forall k, den2 l1 k <-> den2 l2 k) -> l1 = l2.
+Proof.
+  induction l1 as [|a t1 IH]; intros l2 lb S1 S2 F1 F2 H.
+  - destruct l2 as [|b t2]; [reflexivity|]. exfalso.
+    apply (proj1 (den2_nil (2 * roff b))). apply H. apply den2_cons. left.
+    inversion F2 as [|? ? (? & ? & ?) _]; subst. unfold inr2. lia.
+  - destruct l2 as [|b t2].
+    { exfalso. apply (proj1 (den2_nil (2 * roff a))). apply H. apply den2_cons. left.
+      inversion F1 as [|? ? (? & ? & ?) _]; subst. unfold inr2. lia. }
+    inversion F1 as [|? ? Oa Ft1]; subst. inversion F2 as [|? ? Ob Ft2]; subst.
+    cbn [sep_lb] in S1, S2. destruct S1 as (S1a & S1b), S2 as (S2a & S2b).
+    pose proof Oa as (a0 & a1 & a2). pose proof Ob as (b0 & b1 & b2).
+    assert (Eo : roff a = roff b).
+    { destruct (Z.lt_total (roff a) (roff b)) as [Lt | [E | Gt]]; [exfalso | exact E | exfalso].
+      - assert (D : den2 (b :: t2) (2 * roff a)) by (apply H, den2_cons; left; unfold inr2; lia).
+        apply den2_cons in D. destruct D as [D | D]; [unfold inr2 in D; lia|].
+        pose proof (sep_lb_den2 _ _ _ Ft2 S2b D). lia.
+      - assert (D : den2 (a :: t1) (2 * roff b)) by (apply H, den2_cons; left; unfold inr2; lia).
+        apply den2_cons in D. destruct D as [D | D]; [unfold inr2 in D; lia|].
+        pose proof (sep_lb_den2 _ _ _ Ft1 S1b D). lia. }
+    assert (El : rlen a = rlen b).
+    { destruct (Z.lt_total (rlen a) (rlen b)) as [Lt | [E | Gt]]; [exfalso | exact E | exfalso].
+      - assert (D : den2 (a :: t1) (2 * (roff a + rlen a) + 1)) by (apply H, den2_cons; left; unfold inr2; lia).
+        apply den2_cons in D. destruct D as [D | D]; [unfold inr2 in D; lia|].
+        pose proof (sep_lb_den2 _ _ _ Ft1 S1b D). lia.
+      - assert (D : den2 (b :: t2) (2 * (roff b + rlen b) + 1)) by (apply H, den2_cons; left; unfold inr2; lia).
+        apply den2_cons in D. destruct D as [D | D]; [unfold inr2 in D; lia|].
+        pose proof (sep_lb_den2 _ _ _ Ft2 S2b D). lia. }
+    assert (Eab : a = b) by (destruct a as [ao al], b as [bo bl]; cbn [roff rlen] in Eo, El; subst; reflexivity).
+    subst b. f_equal. apply (IH t2 (roff a + rlen a)); try assumption.
+    intros k. split; intros D.
+    + assert (D' : den2 (a :: t2) k) by (apply H, den2_cons; right; exact D).
+      apply den2_cons in D'. destruct D' as [D' | D']; [|exact D'].
+      pose proof (sep_lb_den2 _ _ _ Ft1 S1b D). unfold inr2 in D'. lia.
+    + assert (D' : den2 (a :: t1) k) by (apply H, den2_cons; right; exact D).
+      apply den2_cons in D'. destruct D' as [D' | D']; [|exact D'].
+      pose proof (sep_lb_den2 _ _ _ Ft2 S2b D). unfold inr2 in D'. lia.
+Qed.
+
+Lemma merge_ranges_den2 l k : Forall okr l -> sorted_off l -> den2 (merge_ranges l) k <-> den2 l k.
+Proof.
+  destruct l as [|e t]; intros F S; cbn [merge_ranges]; [tauto|].
+  inversion F; subst. rewrite merge_go_den2 by assumption. rewrite den2_cons. tauto.
+Qed.
+Lemma merge_ranges_sep_lb l : Forall okr l -> sorted_off l -> sep_lb (-1) (merge_ranges l).
+Proof.
+  destruct l as [|e t]; intros F S; cbn [merge_ranges]; [exact I|].
+  inversion F as [|? ? (? & ? & ?) Ft]; subst.
+  apply merge_go_sep; try assumption; [repeat split; assumption | lia].
+Qed.
+
+(** Whatever sorted order Ranges.Sort produces, MergeRanges returns the same list. *)
+Lemma merge_sorted_perm_indep l1 l2 : Permutation l1 l2 -> sorted_off l1 -> sorted_off l2 ->
+  Forall okr l1 -> merge_ranges l1 = merge_ranges l2.
+Proof.
+  intros P S1 S2 F1. assert (F2 : Forall okr l2) by (eapply Permutation_Forall; eassumption).
+  apply (separated_unique _ _ (-1)).
+  - apply merge_ranges_sep_lb; assumption.
+  - apply merge_ranges_sep_lb; assumption.
+  - apply merge_ranges_sep; assumption.
+  - apply merge_ranges_sep; assumption.
+  - intros k. rewrite !merge_ranges_den2 by assumption. apply den2_perm. assumption.
+Qed.
